@@ -225,3 +225,5 @@ def run(col, configs, tier):
     for n, facts in configs.items():
         col.set_config(n)
         guarded(col, X.rule_error_accounting, facts)
+        from rules import syntax
+        guarded(col, syntax.rule_getters, facts)
